@@ -1,0 +1,9 @@
+//go:build verif
+
+package asn1struct
+
+// Verification hooks for property C13 (see the verification framework). Not compiled
+// without the "verif" build tag.
+
+// VerifMaxDepth returns the nesting limit of ParseRaw.
+func VerifMaxDepth() int { return maxDepth }
